@@ -329,7 +329,45 @@ class SimRng(np.random.Generator):
         return self._fill(size, lambda: lo + sc * float(_sp.ndtri(self.sched.quantile("normal"))))
 
 
-_HANDLED = {"choice", "uniform", "standard_normal", "poisson", "bit_generator", "spawn", "random", "integers", "normal"}
+# Further scalar laws of numpy's Generator, answered as quantile decisions through scipy's closed-form quantile functions: a
+# change that reaches for one of them (a fallback sampler, a 'direct' gamma draw) is then observable and replayable like any
+# other draw instead of ending the run as unmodelled randomness.  Vector-valued and combinatorial methods stay trapped.
+def _via_ppf(name, make):
+    def method(self, *a, size=None, **k):
+        dist, discrete = make(*a, **k)
+        one = (lambda: int(dist.ppf(self.sched.quantile(name)))) if discrete else (lambda: float(dist.ppf(self.sched.quantile(name))))
+        return self._fill(size, one)
+
+    method.__name__ = name
+    return method
+
+
+_PPF_LAWS = {
+    "gamma": lambda shape, scale=1.0: (_st.gamma(float(shape), scale=float(scale)), False),
+    "standard_gamma": lambda shape, dtype=None, out=None: (_st.gamma(float(shape)), False),
+    "exponential": lambda scale=1.0: (_st.expon(scale=float(scale)), False),
+    "standard_exponential": lambda dtype=None, method=None, out=None: (_st.expon(), False),
+    "lognormal": lambda mean=0.0, sigma=1.0: (_st.lognorm(float(sigma), scale=math.exp(float(mean))), False),
+    "beta": lambda a, b: (_st.beta(float(a), float(b)), False),
+    "chisquare": lambda df: (_st.chi2(float(df)), False),
+    "weibull": lambda a: (_st.weibull_min(float(a)), False),
+    "triangular": lambda left, mode, right: (_st.triang((float(mode) - float(left)) / (float(right) - float(left)), loc=float(left), scale=float(right) - float(left)), False),
+    "laplace": lambda loc=0.0, scale=1.0: (_st.laplace(float(loc), float(scale)), False),
+    "logistic": lambda loc=0.0, scale=1.0: (_st.logistic(float(loc), float(scale)), False),
+    "rayleigh": lambda scale=1.0: (_st.rayleigh(scale=float(scale)), False),
+    "gumbel": lambda loc=0.0, scale=1.0: (_st.gumbel_r(float(loc), float(scale)), False),
+    "pareto": lambda a: (_st.lomax(float(a)), False),
+    "standard_t": lambda df: (_st.t(float(df)), False),
+    "standard_cauchy": lambda: (_st.cauchy(), False),
+    "wald": lambda mean, scale: (_st.invgauss(float(mean) / float(scale), scale=float(scale)), False),
+    "geometric": lambda p: (_st.geom(float(p)), True),
+    "binomial": lambda n, p: (_st.binom(int(n), float(p)), True),
+    "negative_binomial": lambda n, p: (_st.nbinom(float(n), float(p)), True),
+}
+for _n, _mk in _PPF_LAWS.items():
+    setattr(SimRng, _n, _via_ppf(_n, _mk))
+
+_HANDLED = {"choice", "uniform", "standard_normal", "poisson", "bit_generator", "spawn", "random", "integers", "normal"} | set(_PPF_LAWS)
 for _name in dir(np.random.Generator):
     if _name.startswith("_") or _name in _HANDLED:
         continue
